@@ -385,6 +385,40 @@ Fixpoint load_each (decl : list (string * list nat)) (given : dict) : result (li
       end
   end.
 
+(** Dimension UNKNOWN (neither [dimension] nor [features]; the constructor accepted it: dimension-free noise model).
+    [get_variables_specs] still builds the DAG when it never computes [dimension - 1] (no sources, not the shared-speed
+    kind): shapes that mention the dimension are then [(None,)].  [load_parameters] goes on: unknown names are refused
+    FIRST (LeaspyModelInputError, stateful.py:331), then the provided values are reshaped in declaration order and
+    [Tensor.view((None,))] raises TypeError (utilities.py:174) on the first parameter whose shape mentions the dimension
+    (a shape is dimension-free iff it is the same for d = 1 and d = 2). *)
+Definition dim_free_specs (k : mkind) (s : Z) : bool :=
+  (s <=? 0)%Z && match k with SharedSpeed => false | _ => true end.
+Fixpoint shape_eqb (a b : list nat) : bool :=
+  match a, b with [], [] => true | x :: a', y :: b' => Nat.eqb x y && shape_eqb a' b' | _, _ => false end.
+Fixpoint load_each_nodim (decl1 decl2 : list (string * list nat)) (given : dict) : result (list (string * tensor)) :=
+  match decl1, decl2 with
+  | (p, sh1) :: r1, (_, sh2) :: r2 =>
+      match lookup p given with
+      | None => load_each_nodim r1 r2 given
+      | Some v =>
+          (t <- (if shape_eqb sh1 sh2 then of_json sh1 v
+                 else match flat v with None => Err Unmodelled | Some _ => Err TypeError end) ;;
+           rest <- load_each_nodim r1 r2 given ;; Ok ((p, t) :: rest))
+      end
+  | _, _ => Ok []
+  end.
+Definition load_parameters_nodim (m : model) (given : dict) (s : Z) : result model :=
+  if negb (dim_free_specs (m_kind m) s) then Err TypeError else
+  let ncl := match m_nclusters m with Some n => Z.to_nat n | None => O end in
+  let decl1 := decl_params (m_kind m) (m_obs m) 1 (Z.to_nat s) ncl (Z.to_nat (m_nb_events m)) in
+  let decl2 := decl_params (m_kind m) (m_obs m) 2 (Z.to_nat s) ncl (Z.to_nat (m_nb_events m)) in
+  let known := map fst decl1 ++ map fst (hyper_nodes (m_kind m) (m_obs m) (Z.to_nat s)) in
+  if negb (forallb (fun kv => mem (fst kv) known) given) then Err ModelInputError else
+  ps <- load_each_nodim decl1 decl2 given ;;
+  (* every provided value had a dimension-free shape; the prior means (shape (dimension,)) are then missing *)
+  if negb (forallb (fun kv => negb (mem (fst kv) pop_locs) || has (fst kv) ps) decl1) then Err InputError else
+  Err Unmodelled.
+
 (** [StatefulModel.load_parameters]; the derived values present in the file (mixing_matrix) are compared with
     [assert (cond, msg)] — a non-empty tuple, always true — hence ignored. *)
 Definition load_parameters (m : model) (p : jv) : result model :=
@@ -403,6 +437,7 @@ Definition load_parameters (m : model) (p : jv) : result model :=
       if negb (forallb (fun kv => negb (mem (fst kv) pop_locs) || has (fst kv) ps) decl) then Err InputError else
       Ok (mkM (m_kind m) (m_name m) (m_features m) (m_dim m) (m_sdim m) (m_obs m) (m_nclusters m) (m_nb_events m)
               (m_fit_metrics m) ps (derive_mixing (m_kind m) d s ps))
+    | None, Some s => load_parameters_nodim m given s
     | _, _ => Err TypeError
     end
   | _ => Err Unmodelled
